@@ -202,7 +202,12 @@ func TestVerifC14(t *testing.T) {
 	idx := 0
 	mine := func() bool { idx++; return p.Mine(idx) }
 	mkFrame := func(i int, pc uintptr) zzvFrame {
-		return zzvFrame{sym: fmt.Sprintf("example.com/PII%d/pkg.(*T).method", i), args: "0xPII, {0x1, 0x2}, ...", file: fmt.Sprintf("/home/PIIuser/src/f%d.go", i), pc: pc, hasPC: true}
+		file := fmt.Sprintf("/home/PIIuser/src/f%d.go", i)
+		if i%2 == 0 {
+			// a legal directory name; the traceback is still a genuine one
+			file = fmt.Sprintf("/home/PIIuser/my pc=1 dir/f%d.go", i)
+		}
+		return zzvFrame{sym: fmt.Sprintf("example.com/PII%d/pkg.(*T).method", i), args: "0xPII, {0x1, 0x2}, ...", file: file, pc: pc, hasPC: true}
 	}
 	base := func(frames []zzvFrame, sent uint64) zzvTrace {
 		return zzvTrace{sentinel: sent, message: []string{"panic: PII message [recovered]", "\tpanic: runtime error: PII", "[signal SIGSEGV: segmentation violation code=0x1 addr=0x0 pc=0x48f0a7]", ""}, frames: frames}
@@ -278,6 +283,7 @@ func TestVerifC14(t *testing.T) {
 		}
 		if n == 5 {
 			frames[1].sigpanic = true
+			frames[3].hasPC = false // an inlined frame: its location line is just FILE:LINE
 		}
 		b0 := base(frames, sentinel())
 		b0.preamble = []string{"PII preamble line", "another PII line"}
